@@ -12,9 +12,29 @@ pub struct Report {
     pub fails: Vec<(String, String, String)>,
     pub replay: Option<(String, String)>,
 }
+/// the case being evaluated and when it started: a watchdog thread reports a case that does not return (C15: termination)
+static CURRENT_CASE: std::sync::Mutex<Option<(String, String, std::time::Instant)>> = std::sync::Mutex::new(None);
+static EVALS_SO_FAR: std::sync::atomic::AtomicU64 = std::sync::atomic::AtomicU64::new(0);
+
 impl Report {
     pub fn new() -> Self {
         std::panic::set_hook(Box::new(|_| {}));
+        let limit = std::env::var("VERIF_CASE_TIMEOUT").ok().and_then(|s| s.parse::<u64>().ok()).unwrap_or(60);
+        std::thread::spawn(move || loop {
+            std::thread::sleep(std::time::Duration::from_millis(500));
+            let stuck = { let g = CURRENT_CASE.lock().unwrap_or_else(|e| e.into_inner()); g.as_ref().filter(|(_, _, t)| t.elapsed().as_secs() >= limit).map(|(c, i, _)| (c.clone(), i.clone())) };
+            if let Some((check, input)) = stuck {
+                // the evaluating thread cannot be stopped: report the input and end the process
+                println!("EVALS {}", EVALS_SO_FAR.load(std::sync::atomic::Ordering::Relaxed));
+                println!("DISTINCT 0");
+                println!("PANICCOUNT fn={} count=1", check);
+                println!("PANICCOUNT fn={}#panics count=1", check);
+                println!("FAIL fn={} input={:?} msg={:?}", check, input, format!("panic: no result within {} s — the call does not terminate (or is far too slow)", limit));
+                use std::io::Write;
+                let _ = std::io::stdout().flush();
+                std::process::exit(1);
+            }
+        });
         let replay = match (std::env::var("VERIF_REPLAY_FN"), std::env::var("VERIF_REPLAY_INPUT")) {
             (Ok(f), Ok(i)) => Some((f, i)),
             _ => None,
@@ -30,7 +50,10 @@ impl Report {
             if rf != check || ri != input { return; }
         }
         self.evals += 1;
+        EVALS_SO_FAR.store(self.evals, std::sync::atomic::Ordering::Relaxed);
+        *CURRENT_CASE.lock().unwrap_or_else(|e| e.into_inner()) = Some((check.to_string(), input.to_string(), std::time::Instant::now()));
         let res = catch_unwind(AssertUnwindSafe(|| f()));
+        *CURRENT_CASE.lock().unwrap_or_else(|e| e.into_inner()) = None;
         let fail = match res {
             Ok(Ok(out)) => {
                 if self.distinct.len() < 100_000 {
